@@ -40,6 +40,10 @@ Corpus == {
   <<"seq", <<0, 1>>, El("a", "decimal", 1, U), El("b", "string", 1, 1), CD("seq", <<1, U>>, 1), "urn:t", "qualified", TRUE, 4, "complex">>,
   <<"seq", <<1, 1>>, El("a", "IntsAnon", 1, 1), El("b", "int", 0, 1), NoC, "urn:t", "qualified", FALSE, 1, "complex">>,             \* anonymous restricted list
   <<"choice", <<1, U>>, El("a", "IntsAnon", 0, U), El("b", "Ints", 1, 1), NoC, NONE, "unqualified", TRUE, 2, "complex">>,
+  <<"seq", <<1, 1>>, El("a", "FixedStr", 0, U), El("b", "int", 0, 1), NoC, "urn:t", "qualified", FALSE, 1, "complex">>,             \* fixed x optional / repeating
+  <<"seq", <<1, 1>>, El("a", "FixedStr", 0, 1), El("b", "string", 1, 1), NoC, NONE, "unqualified", TRUE, 2, "complex">>,
+  <<"choice", <<0, U>>, El("a", "FixedStr", 1, 1), El("b", "int", 1, 1), NoC, "urn:t", "qualified", FALSE, 1, "complex">>,
+  <<"seq", <<1, 1>>, El("a", "DefInt", 0, 2), El("b", "Kid", 0, 1), NoC, "urn:t", "qualified", FALSE, 3, "complex">>,
   <<"seq", <<1, 1>>, El("a", "boolean", 1, 1), El("b", "int", 1, 1), NoC, "urn:t", "qualified", TRUE, 4, "simpleContent">> }
 InitCorpus == \E c \in Corpus, i \in 0..MaxDocIdx : parts = Append(c, i)
 
